@@ -132,7 +132,7 @@ def build_harness(release=True):
     return path
 
 
-def harness(args, timeout=1800, env=None, release=True, check=True, stdin=None):
+def harness(args, timeout=900, env=None, release=True, check=True, stdin=None):
     """Run a harness subcommand. Returns (rc, stdout_text). A non-zero rc is a tool error unless
     check=False (the caller then interprets signals/aborts as data about the code under test)."""
     exe = build_harness(release)
